@@ -11,9 +11,13 @@ META = {
     "text": ("TLC checks, for 8 model kinds (polynomial core with Jacobian / direction-Jacobian / no gradient, linear dense / sparse / "
              "function pair, unipotent 4x4 PDE with gradient / Jacobian) x 15 domain x 9 range geometries, that the six input "
              "representations give one output H+(F(G v)), that the gradient J_G^T J_F^T (H+)^T d equals the exact derivative of the "
-             "par->par map (exact 5-point stencil), the refusal table and the renaming frame condition; 5 named deviations must violate. "
+             "par->par map (exact 5-point stencil), the refusal table and the renaming frame condition (model(dist) differs in the argument name only, "
+             "for every geometry the distribution may carry - default, identity-like, mapped, KL, step - and for models with default / int "
+             "geometries); 6 named deviations must violate. "
              "Every case is replayed: par ndarray, fun ndarray (is_par=False), CUQIarray par/fun, Samples of parameters and of function values; value, wrapper type, flag and "
-             "geometry of the output; gradient for direction/wrt as par, fun, CUQIarray against the exact value or the refusal; model(dist)."),
+             "geometry of the output; gradient for direction/wrt as par, fun, CUQIarray against the exact value or the refusal; model(dist) for "
+             "each distribution geometry: name, geometries (object / class / shapes / par2fun), forward values on every representation, "
+             "gradient, original untouched."),
     "note": ("Bounded sizes (domain function dimension 6, range 4); one argument models only (the pinned version supports one input). "
              "KLExpansion realised numerically from the original geometry object. Exact class of the output for plain ndarray input and "
              "exception types are observations, not asserted."),
@@ -26,7 +30,7 @@ import numpy as np
 
 DEVIATIONS = [("GradientOmitsGeometryDerivative", "ChainRule"), ("SamplesItemsAsFunvals", "OneOutput"),
               ("ArrayFlagIgnored", "OneOutput"), ("RenameMutatesOriginal", "Rename"),
-              ("SamplesFunItemsAsParameters", "OneOutput")]
+              ("SamplesFunItemsAsParameters", "OneOutput"), ("RenameAdoptsDistributionGeometry", "Rename")]
 
 
 def _try(f):
@@ -79,7 +83,8 @@ def _expectations(case, dom, rng):
     with warnings.catch_warnings():
         warnings.simplefilter("ignore")
         p2f = (lambda v: np.asarray(dom.obj.par2fun(v), dtype=float).ravel())
-        f2p = (lambda f: np.asarray(rng.obj.fun2par(rng.to_fun(f)), dtype=float).ravel())
+        f2p = ((lambda f: np.asarray(f, dtype=float).ravel()) if isinstance(rng.obj, int)      # default geometry given as an int
+               else (lambda f: np.asarray(rng.obj.fun2par(rng.to_fun(f)), dtype=float).ravel()))
         fs = [p2f(v) for v in vs]
         outs = [f2p(fv(f)) for f in fs]
         grad = None
@@ -228,36 +233,136 @@ def check_case_variant(ctx, case, dom, rng):
     ctx.observations["gradient_samples_wrt"]["refused" if err is not None else "returned"] += 1
 
     # ---- applying the model to a distribution only renames its input ------------------------------------------------
-    ctx.case(("rename", key, case["fi"]), facet="rename")
-    v0, o0 = exp["vs"][0], exp["outs"][0]
-    names = lambda mdl: list(cuqi.utilities.get_non_default_args(mdl))
-    before = names(model)
-    dist = cuqi.distribution.Gaussian(np.zeros(model.domain_dim), 1, name="z")
-    new, err = _try(lambda: model(dist))
-    sig = "rename/%s" % key
-    if err is not None or not isinstance(new, cuqi.model.Model):
-        ctx.mismatch(sig + "/raised", case, "model(distribution) did not return a model", "model", repr(err) if err else type(new).__name__)
-        return
-    if names(new) != ["z"]:
-        ctx.mismatch(sig + "/name", case, "renamed model does not take the distribution's name", ["z"], names(new))
-    if new is model or names(model) != before:
-        ctx.mismatch(sig + "/original_mutated", case, "applying the model to a distribution changed the original model", before, names(model))
-    o_old, e_old = _try(lambda: model.forward(x=v0))
-    if e_old is not None or not close(np.asarray(o_old, dtype=float), o0):
-        ctx.mismatch(sig + "/original_mutated", case, "original model no longer evaluates with its own argument name", o0,
-                     repr(e_old) if e_old else o_old)
-    o_new, e_new = _try(lambda: new.forward(z=v0))
-    o_pos, e_pos = _try(lambda: new(v0))
-    if e_new is not None or e_pos is not None or not close(np.asarray(o_new, dtype=float), o0) or not close(np.asarray(o_pos, dtype=float), o0):
-        ctx.mismatch(sig + "/apply", case, "renamed model does not act like the original", o0, repr(e_new or e_pos) if (e_new or e_pos) else o_new)
-    if not (new.domain_geometry == model.domain_geometry) or not (new.range_geometry == model.range_geometry) or type(new) is not type(model):
-        ctx.mismatch(sig + "/geometry", case, "renamed model changed geometry or class", None, None)
-    if not case["refused"]:
+    check_rename(ctx, case, key, model, exp, dom, rng, "")
+    if case["mk"] in ("lin_dense", "lin_sparse") and dom.g["kind"] == "default1d" and rng.g["kind"] == "default1d":
+        # geometries not given at all (inferred from the matrix)
+        import scipy.sparse as sp
+        from cuqiverif.modelgeom_real import imat
+        A = imat(case["A"])
+        inferred, e_inf = _try(lambda: cuqi.model.LinearModel(A.copy() if case["mk"] == "lin_dense" else sp.csc_matrix(A)))
+        if e_inf is None:
+            check_rename(ctx, case, key, inferred, exp, dom, rng, "/geometries=inferred")
+
+
+def _dist_geometry(rec, G):
+    """real geometry carried by the distribution a model is applied to (None = default geometry)"""
+    import cuqi
+    from cuqiverif.modelgeom_real import rmat
+    from cuqiverif.tlc import MachineryError
+    kind, p = rec["kind"], rec["k"]
+    if kind == "default1d":
+        return None
+    if kind == "cont1d":
+        return cuqi.geometry.Continuous1D(p)
+    if kind == "discrete":
+        return cuqi.geometry.Discrete(p)
+    if kind == "mapped":
+        M = rmat(G)
+        return cuqi.geometry.MappedGeometry(cuqi.geometry.Continuous1D(p), map=lambda f: M @ f, imap=lambda f: np.linalg.solve(M, f))
+    if kind == "klfull":
+        return cuqi.geometry.KLExpansion(np.linspace(0, 1, p))
+    if kind == "step":
+        return cuqi.geometry.StepExpansion(np.arange(rec["n"], dtype=float), n_steps=p)
+    raise MachineryError("unknown distribution geometry kind %r" % kind)
+
+
+def _geom_snapshot(geom, v):
+    """what identifies a geometry for the frame condition: the object, its class, its shapes and its par2fun on one input"""
+    f, _ = _try(lambda: np.asarray(geom.par2fun(v), dtype=float).copy())
+    return {"obj": geom, "type": type(geom), "par_shape": tuple(geom.par_shape), "fun_shape": tuple(geom.fun_shape), "f": f}
+
+
+def _same_geometry(geom, snap, v):
+    if geom is not snap["obj"] and not (type(geom) is snap["type"] and geom == snap["obj"]):
+        return False
+    if type(geom) is not snap["type"] or tuple(geom.par_shape) != snap["par_shape"] or tuple(geom.fun_shape) != snap["fun_shape"]:
+        return False
+    f, _ = _try(lambda: np.asarray(geom.par2fun(v), dtype=float))
+    return (f is None and snap["f"] is None) or (f is not None and snap["f"] is not None and f.shape == snap["f"].shape
+                                                  and bool(np.allclose(f, snap["f"], rtol=1e-12, atol=1e-12)))
+
+
+def check_rename(ctx, case, key, model, exp, dom, rng, tag):
+    """Rename facet of ModelGeom.tla: for every geometry a distribution may carry (emitted by the spec: default, identity-like,
+    mapped, KL, step) model(dist) is a NEW model whose record differs from the original's in the argument name only (expected
+    record and forward values from the spec): same outputs on every input representation, same geometries, same gradient /
+    refusal; the original keeps name, geometries and behaviour."""
+    import cuqi
+    from cuqi.array import CUQIarray
+    from cuqi.samples import Samples
+    from cuqiverif.modelgeom_real import close
+    names = lambda mdl: list(cuqi.utilities.get_non_default_args(mdl))       # noqa: E731
+    ren = case["rename"]
+    want_name = [ren["expect"]["arg"]]
+    vs, outs = exp["vs"], exp["outs"]
+    v0, o0 = vs[0], outs[0]
+    w, d = exp["w"], exp["d"]
+    f0 = dom.to_fun(exp["fs"][0])
+    p_dim = model.domain_dim
+    for drec in ren["dists"]:
+        grec = drec["geo"]
+        if grec["k"] != p_dim:
+            from cuqiverif.tlc import MachineryError
+            raise MachineryError("spec distribution geometry has %d parameters, model %s has %d" % (grec["k"], key, p_dim))
+        dk = grec["kind"]
+        ctx.case(("rename", key, case["fi"], tag, dk), facet="rename")
+        sig = "rename/%s%s/dist=%s" % (key, tag, dk)
+        before = names(model)
+        dsnap, rsnap = _geom_snapshot(model.domain_geometry, v0), _geom_snapshot(model.range_geometry, o0)
+        dgeom, rgeom = model.domain_geometry, model.range_geometry
+        geo = _dist_geometry(grec, drec["G"])
+        dist, e_d = _try(lambda: cuqi.distribution.Gaussian(np.zeros(p_dim), 1, name="z", **({} if geo is None else {"geometry": geo})))
+        if e_d is not None:
+            from cuqiverif.tlc import MachineryError
+            raise MachineryError("cannot build the distribution with geometry %s: %r" % (dk, e_d))
+        new, err = _try(lambda: model(dist))
+        if err is not None or not isinstance(new, cuqi.model.Model):
+            ctx.mismatch(sig + "/raised", case, "model(distribution) did not return a model", "model", repr(err) if err else type(new).__name__)
+            continue
+        if names(new) != want_name:
+            ctx.mismatch(sig + "/name", case, "renamed model does not take the distribution's name", want_name, names(new))
+        # the original: untouched
+        if new is model or names(model) != before:
+            ctx.mismatch(sig + "/original_mutated", case, "applying the model to a distribution changed the original model", before, names(model))
+        if model.domain_geometry is not dgeom or model.range_geometry is not rgeom or not _same_geometry(model.domain_geometry, dsnap, v0) \
+                or not _same_geometry(model.range_geometry, rsnap, o0):
+            ctx.mismatch(sig + "/original_mutated/geometry", case, "applying the model to a distribution changed the geometries of the "
+                         "original model", [repr(dsnap["obj"]), repr(rsnap["obj"])], [repr(model.domain_geometry), repr(model.range_geometry)])
+        o_old, e_old = _try(lambda: model.forward(x=v0))
+        if e_old is not None or not close(np.asarray(o_old, dtype=float), o0):
+            ctx.mismatch(sig + "/original_mutated", case, "original model no longer evaluates with its own argument name", o0,
+                         repr(e_old) if e_old else o_old)
+        # the copy: same geometries, class ...
+        if not _same_geometry(new.domain_geometry, dsnap, v0) or not _same_geometry(new.range_geometry, rsnap, o0) or type(new) is not type(model):
+            ctx.mismatch(sig + "/geometry", case, "renamed model changed geometry or class (only the argument name may change)",
+                         {"domain": repr(dsnap["obj"]), "range": repr(rsnap["obj"]), "class": type(model).__name__},
+                         {"domain": repr(new.domain_geometry), "range": repr(new.range_geometry), "class": type(new).__name__})
+        # ... and the same forward values on every representation of the input (expected outputs: the spec's Apply(v))
+        reps = [("par_kw", 0, lambda: new.forward(z=v0)), ("par_call", 0, lambda: new(v0)),
+                ("par_nd", 1, lambda: new.forward(vs[1])), ("par_nd", 2, lambda: new.forward(z=vs[2])),
+                ("fun_nd", 0, lambda: new.forward(f0, is_par=False)),
+                ("arr_par", 0, lambda: new.forward(CUQIarray(v0, is_par=True, geometry=dgeom))),
+                ("arr_fun", 0, lambda: new.forward(z=CUQIarray(f0, is_par=False, geometry=dgeom)))]
+        for rep, i, call in reps:
+            o_new, e_new = _try(call)
+            if e_new is not None or not close(np.asarray(o_new, dtype=float), outs[i]):
+                ctx.mismatch(sig + "/apply/rep=" + rep, case, "renamed model does not act like the original (same forward values expected "
+                             "on representation %s)" % rep, outs[i], repr(e_new) if e_new else np.asarray(o_new))
+        S = Samples(np.column_stack(vs), geometry=dgeom)
+        o_s, e_s = _try(lambda: new.forward(S))
+        if e_s is not None or not isinstance(o_s, Samples) or not close(np.asarray(o_s.samples, dtype=float), np.column_stack(outs)):
+            ctx.mismatch(sig + "/apply/rep=samples", case, "renamed model does not act like the original on a Samples input",
+                         np.column_stack(outs), repr(e_s) if e_s else (np.asarray(o_s.samples) if isinstance(o_s, Samples) else type(o_s).__name__))
+        # gradient: same value / still refused-or-correct
         g_new, e_g = _try(lambda: new.gradient(d, w))
-        if e_g is not None or not close(np.asarray(g_new, dtype=float).ravel(), exp["grad"]):
-            ctx.mismatch(sig + "/gradient", case, "renamed model's gradient differs from the original's", exp["grad"],
-                         repr(e_g) if e_g else g_new)
-    bad = cuqi.distribution.Gaussian(np.zeros(model.domain_dim + 1), 1, name="z")
+        if not case["refused"]:
+            if e_g is not None or not close(np.asarray(g_new, dtype=float).ravel(), exp["grad"]):
+                ctx.mismatch(sig + "/gradient", case, "renamed model's gradient differs from the original's", exp["grad"],
+                             repr(e_g) if e_g else g_new)
+        elif e_g is None and not (exp["grad"] is not None and close(np.asarray(g_new, dtype=float).ravel(), exp["grad"])):
+            ctx.mismatch(sig + "/gradient/not_refused", case, "renamed model returns a gradient the original refuses and it is not the "
+                         "derivative of the parameter-to-parameter map", exp["grad"], np.asarray(g_new))
+    bad = cuqi.distribution.Gaussian(np.zeros(p_dim + 1), 1, name="z")
     _, e_bad = _try(lambda: model(bad))
     ctx.observations.setdefault("rename_dimension_mismatch", {}).setdefault("refused" if e_bad is not None else "accepted", 0)
     ctx.observations["rename_dimension_mismatch"]["refused" if e_bad is not None else "accepted"] += 1
